@@ -43,8 +43,9 @@ def cases(seed, tier):
 def find_bigint_mixed(v):
     """a sequence mixing ints beyond 2^53 with floats/complex (F19)"""
     if v[0] in ('tuple', 'list'):
-        kinds = {x[0] for x in v[1]}
-        if ('float' in kinds or 'complex' in kinds) and any(x[0] == 'int' and abs(x[1]) > 2 ** 53 for x in v[1]):
+        floatlike = lambda x: x[0] in ('float', 'complex') or (x[0] == 'np' and x[1].lstrip('<>=').startswith(('float', 'complex')))
+        bigint = lambda x: (x[0] == 'int' and abs(x[1]) > 2 ** 53) or (x[0] == 'np' and x[1].lstrip('<>=').startswith(('int', 'uint')) and x[2][0] == 'int' and abs(x[2][1]) > 2 ** 53)
+        if any(floatlike(x) for x in v[1]) and any(bigint(x) for x in v[1]):
             return True
         return any(find_bigint_mixed(x) for x in v[1] if x[0] in ('tuple', 'list', 'dict'))
     if v[0] == 'dict':
